@@ -119,6 +119,18 @@ Theorem C03_accepted_payload_is_blob : forall c blob ws sched w,
 Proof. exact Proof.C03.accepted_payload_is_blob. Qed.
 Print Assumptions C03_accepted_payload_is_blob.
 
+(* ... and a well-formed call for a piece that is already complete when it starts can only return
+   ErrPieceComplete, whatever the other callers do meanwhile *)
+Theorem C03_duplicate_gets_complete : forall c ws sched more k w i,
+  wf_cfg c = true -> all_honest ws ->
+  let S := R c ws sched in
+  nth_error (s_ths S) k = Some (mkth w PStart) ->
+  i < npieces c -> w_idx w = Z.of_nat i -> w_decl w = Z.of_nat (plen c i) ->
+  st_at (s_st S) i = Complete ->
+  forall r, pc_of (run c S more) k = PDone r -> r = RComplete.
+Proof. exact Proof.C03.duplicate_gets_complete. Qed.
+Print Assumptions C03_duplicate_gets_complete.
+
 (* -- what a peer is served (GetPieceReader) is the blob's piece -- *)
 Theorem C03_served_piece_is_blob : forall c blob ws sched i d,
   wf_cfg c = true -> c_len c = length blob -> all_honest ws -> coll_free c blob ws ->
